@@ -1116,6 +1116,8 @@ impl Gen {
             0 | 1 | 2 => Some(self.user(e, r)),
             3 | 4 | 5 => Some(u),
             6 => Some(r.pick(&e.pairs[..e.pairs.len().min(8)]).addr),     // a pool as the recipient (a donation; legal)
+            // other contracts as recipients: an LP token's own address, a token contract, the factory, the router
+            8 if r.chance(1, 2) => Some(match r.below(4) { 0 => pm.lp, 1 => *r.pick(&e.tokens), 2 => e.factory, _ => e.router }),
             7 if family == "route" => Some(e.router),
             _ => None,
         };
@@ -1215,7 +1217,7 @@ impl Gen {
                 // rarely: declare a token deposit under the native denom that reads like the token's address
                 let x0 = match x0 { A::T(t) if r.chance(1, 25) => self.alias_of(e, t).map(A::N).unwrap_or(x0), _ => x0 };
                 let funds = self.funds_for(r, &[(x0, m0), (x1, m1)]);
-                let rcv = match r.below(5) { 0 => Some(self.user(e, r)), _ => None };
+                let rcv = match r.below(20) { 0 | 1 | 2 | 3 => Some(self.user(e, r)), 4 => Some(pm.lp), 5 => Some(pm.addr), 6 => Some(e.router), _ => None };
                 Op::Provide { s, p: pm.addr, funds, as0: x0, am0: m0, as1: x1, am1: m1, tol, rcv }
             }
             "withdraw" => {
@@ -1251,7 +1253,9 @@ impl Gen {
                     let d = if r.chance(1, 3) { pm.addr } else { self.user(e, r) };
                     Op::TokTransfer { t: pm.lp, s: holder, d, amt: b / (2 + r.below(5) as u128) }
                 } else {
-                    Op::TokBurn { t: pm.lp, s: holder, amt: b / (3 + r.below(5) as u128) }
+                    // a holder burning its own tokens: LP tokens, or (cw20-base allows it for anyone) a base token
+                    if r.chance(1, 4) { let t = *r.pick(&e.tokens); Op::TokBurn { t, s: holder, amt: e.bal(A::T(t), holder) / (1000 + r.below(1000) as u128) } }
+                    else { Op::TokBurn { t: pm.lp, s: holder, amt: b / (3 + r.below(5) as u128) } }
                 }
             }
             "donate" if r.chance(1, 6) && e.bal(A::T(pm.lp), u) > 0 => {
